@@ -35,6 +35,11 @@ def returned_header(F, name):
     if fn is None:
         return None
     aggs = header_aggregates(fn)
+    if not aggs:
+        # the Header value is put together one private call down (`hint_list_header(NAME)`): look with the helpers inlined (A11)
+        from ..inline import inlined
+        fn = inlined(F, fn)
+        aggs = header_aggregates(fn)
     if len(aggs) != 1:
         return None
     bid, s, nv, vv = aggs[0]
@@ -96,6 +101,40 @@ def in_cycle(cfg, block):
     return any(block in c and (len(c) > 1 or block in cfg.succ[block]) for c in cfg.sccs())
 
 
+def _table_constructor_calls(ctx, fn, map_val):
+    """[('call', constructor, (), block)] when map_val is `CONST_TABLE.iter().map(|f| f())` and CONST_TABLE holds function pointers only"""
+    F = ctx.F
+    from .c14 import items_mentioned
+    mblock = map_val[3]
+    t = next((b["term"] for b in fn.blocks if b["id"] == mblock), None)
+    if t is None:
+        return []
+    closures = [x for x in t.get("fn_items", []) if x in F.fns and F.fns[x].kind == "Closure"]
+    if len(closures) != 1:
+        return []
+    cf = F.fns[closures[0]]
+    calls = list(cf.calls())
+    if len(calls) != 1 or calls[0][1].get("indirect") is None:
+        return []
+    ds = du_of(cf).defs.get(0, [])
+    if not (len(ds) == 1 and ds[0][0] == "call" and ds[0][1] == calls[0][0]):
+        return []
+    tables = []
+    for item in sorted(items_mentioned(F, fn)):
+        v = (F.consts.get(item) or {}).get("v")
+        rows = v.get("fields") if isinstance(v, dict) else None
+        if isinstance(rows, dict) and rows and all(isinstance(x, dict) and isinstance(x.get("fn"), str) for x in rows.values()):
+            tables.append([rows[k]["fn"] for k in sorted(rows, key=lambda x: int(x) if str(x).isdigit() else 0)])
+    # the table this map runs over: the one whose element type is the closure's parameter type; with one candidate there is no choice
+    ety = (t.get("arg_tys") or [""])[0]
+    cands = [tb for tb in tables if all(x in F.fns for x in tb)]
+    if len(cands) > 1:
+        cands = [tb for tb in cands if all((F.fns[x].local_ty(0) or "") in ety for x in tb)]
+    if len(cands) != 1:
+        return []
+    return [("call", x, (), mblock) for x in cands[0]]
+
+
 def run(ctx):
     F, G, R = ctx.F, ctx.G, ctx.R
     chk = Check("C10", ctx.tier, "The default-header builder pushes each hardening header exactly once on every path; every reachable Response is built from its result; nothing removes or duplicates them; the serialiser emits the whole list.")
@@ -133,6 +172,10 @@ def run(ctx):
                 if arr[0] == "aggregate" and arr[1] == "array":
                     for el in arr[3]:
                         events.append((bid, t, el))
+                elif arr[0] == "call" and (arr[1] or "").endswith("::map"):
+                    # `list.extend(TABLE.iter().map(|make| make()))` over a constant table of constructors: one push per row
+                    for ev_ in _table_constructor_calls(ctx, fn, arr):
+                        events.append((bid, t, ev_))
         for bid, t, v in events:
             hn = hv = None
             vv = None
@@ -149,7 +192,7 @@ def run(ctx):
             elif v[0] == "call" and v[1] in F.fns:
                 rh = returned_header(F, v[1])
                 if rh:
-                    hn, hv, vv = rh[0], rh[1], ("helper", v[1], rh[2])
+                    hn, hv, vv = rh[0], rh[1], ("helper", v[1], rh[2], rh[3])
             plist.append((bid, hn, hv, vv, t))
         pushes_of[n] = plist
         if any(hn == "X-Content-Type-Options" for _, hn, _, _, _ in plist):
@@ -184,7 +227,7 @@ def run(ctx):
                 detail["nonempty_list"] = nonempty
                 ok = ok and nonempty
             if name == "Vary":
-                vok, why = _vary_names_origin(F, bfn, bid, vv)
+                vok, why = _vary_names_origin(F, bfn, bid, vv, ctx)
                 detail["names_Origin"] = vok
                 detail["why"] = why
                 ok = ok and vok
@@ -195,6 +238,7 @@ def run(ctx):
     for bid, hn, hv, vv, t in pushes_of[builder]:
         pass
     # ---- duplicates: no other reachable code constructs a header with a required name
+    builder_helpers = {vv_[1] for _, _, _, vv_, _ in pushes_of[builder] if isinstance(vv_, tuple) and vv_ and vv_[0] == "helper"}
     r1d = chk.rule("R1d-no-second-source", "no function outside the builder (CORS functions, controllers, serialisers) constructs a header with one of the six required names", floor=1)
     for n in local:
         if n == builder:
@@ -205,6 +249,8 @@ def run(ctx):
             hn = const_str(nv)
             # helper functions that only build one required header for the builder are part of the builder
             is_helper = any(e.src == builder for e in G.inn.get(n, []) if e.kind == "call") and len(G.inn.get(n, [])) >= 1 and all(e.src == builder or e.src not in seen for e in G.inn.get(n, []) if e.kind == "call")
+            # ... or a row of the builder's table of constructors that nobody else calls
+            is_helper = is_helper or (n in builder_helpers and all(e.src == builder or e.src not in seen for e in G.inn.get(n, []) if e.kind == "call"))
             ok = hn not in REQUIRED or is_helper
             r1d.instance({"fn": n, "header": hn if hn is not None else "<computed>", "line": s["span"]["line"]}, ok)
             if not ok:
@@ -298,12 +344,41 @@ def run(ctx):
     return chk.finish()
 
 
+def _selected_rows_nonempty(F, fn):
+    """fn (helpers inlined) joins the names of the rows of a constant table that a selector picks: True when at least one row has the
+    selected flag set (`join_selected(|row| row.advertised)` over `const TABLE: [Row; N]`), None when it is not of that form"""
+    from ..inline import inlined
+    from .c14 import items_mentioned
+    fi = inlined(F, fn)
+    tables = []
+    for item in sorted(items_mentioned(F, fi)):
+        v = (F.consts.get(item) or {}).get("v")
+        rows = v.get("fields") if isinstance(v, dict) else None
+        if isinstance(rows, dict) and rows and all(isinstance(r, dict) and isinstance(r.get("fields"), dict) for r in rows.values()):
+            tables.append([r["fields"] for r in rows.values()])
+    if len(tables) != 1:
+        return None
+    # the selector: a closure of the function that returns one boolean field of its argument
+    flags = set()
+    for cn, cf in F.fns.items():
+        if cf.kind == "Closure" and cn.startswith(fn.def_ + "::{closure"):
+            v0 = du_of(cf).val_place((0, ()))
+            names = [e[2] for e in (v0[1][1] if v0[0] in ("place", "ref") else ()) if isinstance(e, tuple) and e[0] == "f" and len(e) > 2]
+            if names:
+                flags.add(names[-1])
+    if len(flags) != 1:
+        return None
+    flag = next(iter(flags))
+    return any(r.get(flag) is True for r in tables[0])
+
+
 def _nonempty_join(F, vv):
     if not (isinstance(vv, tuple) and vv and vv[0] == "helper"):
         return False
     # the helper's value is to_string(call get_client_hint_list()); that function joins a constant array of >= 1 items
     v = vv[2]
-    hdu = du_of(F.fns[vv[1]])
+    hfn_ = vv[3] if len(vv) > 3 and vv[3] is not None else F.fns[vv[1]]
+    hdu = du_of(hfn_)
     for _ in range(8):
         if v[0] in ("ref", "place"):
             nv = hdu.val_place((v[1][0], ()))
@@ -317,7 +392,8 @@ def _nonempty_join(F, vv):
                 for s in b["stmts"]:
                     if s["k"] == "assign" and s["rv"]["k"] == "aggregate" and s["rv"].get("agg") == "array" and len(s["rv"]["ops"]) >= 1:
                         return True
-            return False
+            sel = _selected_rows_nonempty(F, fn)
+            return bool(sel)
         if v[0] == "call" and v[2]:
             v = v[2][0]
             continue
@@ -325,8 +401,16 @@ def _nonempty_join(F, vv):
     return False
 
 
-def _vary_names_origin(F, bfn, push_block, vv):
+def _vary_names_origin(F, bfn, push_block, vv, ctx=None):
     """the Vary value is a join of a vector into which a value returned by a function returning the constant "Origin" flows unconditionally"""
+    if isinstance(vv, tuple) and vv and vv[0] == "helper" and ctx is not None and vv[1] in F.fns:
+        # the header is built by a constructor of its own (a row of the builder's table): the value is judged inside it
+        hf = ctx.inl(F.fns[vv[1]])
+        aggs = [(b_, s_) for b_ in hf.blocks for s_ in b_["stmts"] if s_["k"] == "assign" and s_["rv"]["k"] == "aggregate" and s_["rv"].get("adt") == "header::Header"]
+        if len(aggs) == 1:
+            d_ = dict(zip(aggs[0][1]["rv"]["fields"], aggs[0][1]["rv"]["ops"]))
+            return _vary_names_origin(F, hf, aggs[0][0]["id"], du_of(hf).val_operand(d_["value"]), ctx)
+        return False, "the Vary constructor builds %d headers" % len(aggs)
     cfg = cfg_of(bfn)
     du = du_of(bfn)
     ld = local_deps(bfn)
@@ -348,6 +432,14 @@ def _vary_names_origin(F, bfn, push_block, vv):
             break
     if vec_local is None:
         return False, "Vary value is not a join of a vector"
+    # the vector collected from a constant table of value producers: `TABLE.iter().map(|f| f()).collect()`
+    if ctx is not None:
+        vd = du.val_place((vec_local, ()))
+        if vd[0] == "call" and (vd[1] or "").endswith("::collect") and vd[2] and vd[2][0][0] == "call" and (vd[2][0][1] or "").endswith("::map"):
+            names = [x[1] for x in _table_constructor_calls(ctx, bfn, vd[2][0])]
+            if any(const_return(F, x) == "Origin" for x in names):
+                return True, "the Vary list is collected from a constant table of producers, one of which returns the constant Origin"
+            return False, "no row of the table the Vary list is collected from returns the constant Origin"
     origin_dests = {}
     for bid, t in bfn.calls():
         c = callee_name(t)
